@@ -494,6 +494,8 @@ class Symex:
                 raise Raised("AssertionError", None, s)
         elif isinstance(s, ast.Raise):
             name, msg = "Exception", None
+            if s.exc is None:
+                raise Raised("$reraise", None, s)
             if s.exc is not None:
                 e = s.exc.func if isinstance(s.exc, ast.Call) else s.exc
                 name = U(e).split(".")[-1]
@@ -637,7 +639,12 @@ class Symex:
                 if r.name in names or "Exception" in names:
                     if h.name:
                         self.frames[-1][h.name] = sym(f"$exc_{r.name}")
-                    self.block(h.body)
+                    try:
+                        self.block(h.body)
+                    except Raised as r2:
+                        if r2.name == "$reraise":
+                            raise r
+                        raise
                     break
             else:
                 self.block(s.finalbody)
@@ -1856,7 +1863,8 @@ class Symex:
                 kw["key"] = lambda v, k=k: self.call_value(k, [v], {}, node)
             conv = [self.iterate(a, node) if isinstance(a, (T, Obj)) and name in
                     ("list", "tuple", "enumerate", "zip", "set", "sorted", "reversed", "sum", "min", "max")
-                    and not (name in ("min", "max") and len(args) > 1) else a for a in args]
+                    and not (name in ("min", "max") and len(args) > 1)
+                    and not (name in ("sum", "enumerate") and i > 0) else a for i, a in enumerate(args)]
             if name == "zip":
                 lens = [len(c) for c, a in zip(conv, args) if not isinstance(a, (T, Obj))]
                 if lens:
@@ -2328,7 +2336,7 @@ _TYPE_NAMES = {"int", "str", "list", "tuple", "dict", "set", "float", "bool", "f
 _BUILTINS = {
     "len": len, "range": range, "int": int, "str": str, "abs": abs, "sum": sum, "list": list, "tuple": tuple,
     "min": min, "max": max, "sorted": sorted, "bool": bool, "float": float,
-    "enumerate": lambda *a, **k: list(enumerate(*a, **k)), "zip": lambda *a: list(zip(*a)),
+    "enumerate": lambda *a, **k: list(enumerate(*a, **k)), "zip": lambda *a, **k: list(zip(*a, **k)),
     "set": set, "dict": dict, "reversed": lambda x: list(reversed(x)), "frozenset": frozenset,
     "divmod": divmod, "round": round, "repr": repr, "any": any, "all": all,
 }
